@@ -136,7 +136,7 @@ func C06(c *ev.Ctx) {
 		for _, r := range res {
 			evs = append(evs, map[string]any{"ev": "result", "run": run, "pkg": r.pkg, "hash": r.hash, "errs": r.errs, "what": what})
 		}
-		evs = append(evs, map[string]any{"ev": "runend", "run": run, "n": len(pats), "what": what})
+		evs = append(evs, map[string]any{"ev": "runend", "run": run, "n": len(pats), "pkgs": pats, "what": what})
 		return true
 	}
 	// reference: every package alone
